@@ -54,6 +54,22 @@ def check_path(kw, path):
     return out
 
 
+def late_close_scenarios():
+    """the close of an old connection completes only after the next session is up (a legal TCP timing the
+    breadth-first exploration would need depth > 10 to reach)"""
+    M = sc.ALL_MSGS
+    out = []
+    for state_prefix in (sc.EST_PREFIX, sc.EST_PREFIX[:3], sc.EST_PREFIX[:2]):
+        for trigger in ('notif_cease', 'bad_marker', 'notif_version', 'unknown_type'):
+            base = list(state_prefix) + [('data', 0, M[trigger])]
+            nxt = [('fire', 'TIdleHold'), ('connok', 1), ('data', 1, M['open_ok']), ('data', 1, M['keepalive'])]
+            for cut in range(len(nxt) + 1):
+                # the old connection's loss arrives after `cut` steps of the new session's start-up
+                tail = [('fire', 'TIdleHold'), ('fire', 'TConnectRetry'), ('fire', 'TKeepAlive'), ('fire', 'TIdleHold')]
+                out.append(base + nxt[:cut] + [('lost', 0)] + nxt[cut:] + tail)
+    return out
+
+
 def run(ctx):
     viol, mism, samples = [], [], []
     n = 0
@@ -74,7 +90,22 @@ def run(ctx):
                     seen_known.add(v['known'])
                 viol.append(v)
         samples.append({'retry': retry, 'example_path': [sc.name_of(e) for e in leaves[len(leaves) // 2][0]]})
-    return {'evaluations': n, 'distinct': sum(s['abstract_states'] for s in stats_all.values()),
+    # directed: late completion of a close
+    scen = late_close_scenarios()
+    kw = {}
+    for path in scen:
+        n += 1
+        # events that are not enabled at their turn are skipped by the driver (apply returns enabled = False)
+        for v in check_path(kw, path):
+            if v['known']:
+                if v['known'] in seen_known:
+                    continue
+                seen_known.add(v['known'])
+            viol.append(v)
+    runs, mism2 = sc.compare_traces(ctx, [(kw, p) for p in scen], per_shard=10)
+    mism += mism2
+    stats_all['late_close_scenarios'] = len(scen)
+    return {'evaluations': n, 'distinct': sum(s['abstract_states'] for s in stats_all.values() if isinstance(s, dict)),
             'rule': 'breadth-first exploration (state de-duplication) over the full alphabet with no restriction on when a '
                     'pending connect is answered or when stop/start are issued, every order of same-instant expiries, '
                     'connect-retry time below/equal/above the 30 s connect timeout; after every step: live connections <= 1, '
